@@ -1,4 +1,5 @@
 import EE.Model.Ast
+import EE.Gen.Consts
 /-! The parser (parser.rs `Parser`), function by function, over the token list.
 `lim` is `MAX_DEPTH`; `d` is the parser's `depth` field; every result carries the parser's
 `height` field (the height of the tree just returned). Recursion is on `fuel`; that the fuel
@@ -190,7 +191,7 @@ def parseStmts (regs : Regs) (lim : Nat) : Nat → List Tok → Res (List AST ×
     let r1 := match r with | .semi :: r' => r' | _ => r
     (parseStmts regs lim fuel r1).bind fun (as, h') => .ok (a :: as, max h h')
 
-def maxDepth : Nat := 128
+def maxDepth : Nat := Gen.maxDepth
 
 def parseFuel (toks : List Tok) : Nat := 4 * toks.length + 8
 
